@@ -77,6 +77,7 @@ type Exec struct {
 	inputTerms    map[string]string
 	preLocks      int
 	atom          *atomicSpec
+	tagTypes      map[string]types.Type
 }
 
 type execMode struct {
